@@ -2,7 +2,8 @@
 # Run checks against a seeded change without disturbing /repo or /verif:
 #   tools/seedrun.sh <patch.diff> <tier> <ID> [<ID>...]
 # A scratch worktree of /repo HEAD gets the patch, a private copy of /verif runs the checks with
-# VERIF_REPO pointing at it. Prints the check output; exit 0 always. Cleans up after itself.
+# VERIF_REPO pointing at it. SEEDRUN_REPLAY=<replay.json> replays that file instead of running the tier.
+# Prints the check output; exit 0 always. Cleans up after itself.
 set -u
 PATCH=$(readlink -f "$1"); TIER=$2; shift 2
 TAG=$$
@@ -14,6 +15,7 @@ rsync -a --delete --exclude .git /verif/ "$VC"/
 cd "$VC"
 for id in "$@"; do
   echo "=== $id ($TIER) against $(basename "$PATCH")"
+  if [ -n "${SEEDRUN_REPLAY:-}" ]; then VERIF_REPO="$WT" ./check "$id" --replay "$SEEDRUN_REPLAY" 2>&1 | grep -v "^slot"; continue; fi
   VERIF_REPO="$WT" ./check "$id" --tier "$TIER" 2>&1 | tail -4
   if [ -n "${SEEDRUN_KEEP:-}" ]; then mkdir -p "$SEEDRUN_KEEP"; for r in replays/$id-*.json; do [ -f "$r" ] && cp "$r" "$SEEDRUN_KEEP/"; done; fi
   for r in replays/$id-*.json; do
